@@ -424,8 +424,9 @@ func (b *Builder) resolveWordBoundaries(states []nfa.StateID, wordBoundarySatisf
 	}
 	releaseStateSet(crossedBoundary)
 
-	// Get result slice before releasing
-	resultSlice := result.ToSlice()
+	// Get result slice before releasing. Keep the caller's order (original states
+	// first): the order encodes thread priority for break-at-match.
+	resultSlice := result.ToSliceInsertionOrder()
 	releaseStateSet(result)
 	return resultSlice
 }
